@@ -147,7 +147,8 @@ class Run:
                     except OSError:
                         pass
         vio_records = []
-        if violations and code != 2:
+        if violations:
+            # a violation found by a completed check is reported even if another part of the unit is undecided
             os.makedirs(replay_dir, exist_ok=True)
             code = 1
             for i, f in enumerate(violations[:25]):
